@@ -17,11 +17,14 @@ def run(ctx):
     if ctx.tier == "quick":
         dscommon.run_family(ctx, "C02Order", fmt="text", variant=shuffled, always_nontrivial=True)
         dscommon.run_family(ctx, "C02Repeat", fmt="auto", always_nontrivial=True)
+        dscommon.run_family(ctx, "C02Sel", fmt="netcdf", limit=300, always_nontrivial=True)
         dscommon.run_family(ctx, "C02Three", fmt="text", limit=200, always_nontrivial=True)
     else:
         dscommon.run_family(ctx, "C02Order", fmt="text", variant=shuffled, always_nontrivial=True)
         dscommon.run_family(ctx, "C02Order", fmt="netcdf", always_nontrivial=True)
         dscommon.run_family(ctx, "C02Repeat", fmt="auto", always_nontrivial=True)
+        dscommon.run_family(ctx, "C02Sel", fmt="netcdf", always_nontrivial=True)
+        dscommon.run_family(ctx, "C02Sel", fmt="text", variant=shuffled, always_nontrivial=True)
         dscommon.run_family(ctx, "C02All", fmt="text", variant={"row_order": "reverse"}, always_nontrivial=True)
         dscommon.run_family(ctx, "C02Three", fmt="auto", always_nontrivial=True)
         ctx.exhaustive = True
